@@ -478,6 +478,110 @@ Definition phase_split_hist (n : nat) (present : list bool) (rows : list vec) (o
 Definition pairvl_approxb (a b : res (list vec * list vec)) : bool :=
   res_eqb (fun x y => list_eqb vapproxb (fst x) (fst y) && list_eqb vapproxb (snd x) (snd y)) a b.
 
+(* ---------- inlets of another property package: indexer.index_overlap and its cache ----------
+   Chemicals have global identities (CAS numbers, here naturals); a property package is the list of the identities
+   of its chemicals in order.  ChemicalIndexer.mix_from / copy_like move the flows of an inlet of another package by
+   index_overlap(receiver chemicals, inlet chemicals, non-zero keys of the inlet): the keys come in the insertion
+   order of the inlet's sparse dict; the function turns them into identities, looks the TUPLE of identities up in the
+   receiver's _index_cache, and otherwise computes the receiver's index of every identity and stores it under that
+   tuple.  The cache lives on the receiver's Chemicals object: it is state kept between inlets and between calls. *)
+Definition icache := list (list nat * list nat).
+
+Fixpoint icache_find (c : icache) (key : list nat) : option (list nat) :=
+  match c with
+  | [] => None
+  | (k, li) :: t => if list_eqb Nat.eqb k key then Some li else icache_find t key
+  end.
+
+Fixpoint find_pos (pk : list nat) (g : nat) : option nat :=
+  match pk with
+  | [] => None
+  | h :: t => if Nat.eqb h g then Some 0%nat else match find_pos t g with Some j => Some (S j) | None => None end
+  end.
+
+Fixpoint left_indices (rk : list nat) (key : list nat) : res (list nat) :=
+  match key with
+  | [] => Ok []
+  | g :: t => match find_pos rk g with
+              | Some j => do r <- left_indices rk t; Ok (j :: r)
+              | None => Err EKey                                  (* UndefinedChemicalAlias *)
+              end
+  end.
+
+Definition index_overlap (rk : list nat) (c : icache) (key : list nat) : res (list nat) * icache :=
+  match icache_find c key with
+  | Some li => (Ok li, c)
+  | None => match left_indices rk key with
+            | Ok li => (Ok li, (key, li) :: c)
+            | Err e => (Err e, c)
+            end
+  end.
+
+(* data[left_index] += vals *)
+Fixpoint add_at (v : vec) (idx : list nat) (vals : vec) : vec :=
+  match idx, vals with
+  | i :: idx', x :: vals' => add_at (upd v i (nthq v i + x)) idx' vals'
+  | _, _ => v
+  end.
+
+(* an inlet: its package (None: the receiver's own), its flows in its package's order, and the insertion order of
+   its non-zero flows *)
+Record finlet := mkFI { fi_pk : option (list nat); fi_flows : vec; fi_order : list nat }.
+Definition finlet_nonempty (i : finlet) : bool := existsb (fun x => negb (qzerob x)) (fi_flows i).
+
+(* first loop of ChemicalIndexer.mix_from: the index lists of the foreign inlets, in inlet order, through the cache *)
+Fixpoint overlaps (rk : list nat) (c : icache) (ins : list finlet) : res (list (option (list nat))) * icache :=
+  match ins with
+  | [] => (Ok [], c)
+  | i :: t =>
+    match fi_pk i with
+    | None => let '(r, c') := overlaps rk c t in ((do l <- r; Ok (None :: l)), c')
+    | Some pk =>
+      let key := map (fun k => nth k pk 0%nat) (fi_order i) in
+      match index_overlap rk c key with
+      | (Err e, c') => (Err e, c')
+      | (Ok li, c') => let '(r, c'') := overlaps rk c' t in ((do l <- r; Ok (Some li :: l)), c'')
+      end
+    end
+  end.
+
+Fixpoint apply_inlets (acc : vec) (ins : list finlet) (lis : list (option (list nat))) : vec :=
+  match ins, lis with
+  | i :: t, None :: lt => apply_inlets (vadd acc (fi_flows i)) t lt
+  | i :: t, Some li :: lt => apply_inlets (add_at acc li (gather (fi_flows i) (fi_order i))) t lt
+  | _, _ => acc
+  end.
+
+Record pkstate := mkPK { pk_top : vec; pk_bot : vec; pk_cache : icache }.
+
+(* one mix_and_split(ins, top, bottom, split) with single-phase outlets on the package rk *)
+Definition mix_and_split_pk (n : nat) (rk : list nat) (s : pkstate) (ins : list finlet) (split : vec)
+  : pkstate * option err :=
+  let ne := filter finlet_nonempty ins in
+  match overlaps rk (pk_cache s) ne with
+  | (Err e, c') =>
+    (* a single inlet goes through copy_like, which empties the receiver before the lookup *)
+    (mkPK (if Nat.eqb (length ne) 1 then vzero n else pk_top s) (pk_bot s) c', Some e)
+  | (Ok lis, c') =>
+    let mixed := apply_inlets (vzero n) ne lis in
+    let '(values, dummy) := split_to mixed split in
+    (mkPK values dummy c', None)
+  end.
+
+(* a history of calls on the same outlet objects and the same receiving package *)
+Fixpoint run_calls (n : nat) (rk : list nat) (s : pkstate) (calls : list (list finlet * vec))
+  : list (vec * vec * option err) :=
+  match calls with
+  | [] => []
+  | (ins, split) :: t =>
+    let '(s', e) := mix_and_split_pk n rk s ins split in
+    (pk_top s', pk_bot s', e) :: run_calls n rk s' t
+  end.
+
+Definition call_eqb (a b : vec * vec * option err) : bool :=
+  let '(t1, b1, e1) := a in let '(t2, b2, e2) := b in
+  vapproxb t1 t2 && vapproxb b1 b2 && opt_eqb err_eqb e1 e2.
+
 (* contract of the equilibrium call checked on every real (not stubbed) VLE call of the correspondence:
    the rows add up to the feed and none is negative (absolute slack 1e-9 for rounding) *)
 Definition nonneg_tolb (v : vec) : bool := forallb (fun x => qleb (- (1 # 1000000000)) x) v.
